@@ -191,7 +191,7 @@ theorem splitOn_joinWith (d : Nat) (cells : List Bytes) (hne : cells ≠ []) (h 
       rw [splitOn_append d x _ (h x (by simp))]
       rw [ih (by simp) (fun c hc => h c (by simp [hc]))]
 
-theorem zip_map_snd_take (cols : List Bytes) (row : List Value) (f : Value → Bytes)
+theorem zip_map_snd_take {α : Type} (cols : List Bytes) (row : List Value) (f : Value → α)
     (h : cols.length ≤ row.length) :
     (cols.zip row).map (fun nv => f nv.2) = (row.take cols.length).map f := by
   induction cols generalizing row with
